@@ -68,7 +68,7 @@ def BTPHeader.WF (h : BTPHeader) : Prop := h.dport < 65536 ∧ h.second < 65536
 
 
 /-! ### configuration and request well-formedness (what the service primitives allow) -/
-def Mib.WF (m : Mib) : Prop := m.version < 16 ∧ m.mobile < 2 ∧ m.defaultHopLimit < 256
+def Mib.WF (m : Mib) : Prop := m.version < 16 ∧ m.mobile < 2 ∧ m.defaultHopLimit < 256 ∧ m.defaultTc < 256
 
 def Area.WF (a : Area) : Prop := inS32 a.lat ∧ inS32 a.lon ∧ a.a < 65536 ∧ a.b < 65536 ∧ a.angle < 65536
 
@@ -85,5 +85,11 @@ def Spec.basicValues (version : Nat) (lt : FlexModel.Geo.LT) (rhl : Nat) : List 
 /-- Common Header: NH, reserved 0, HT, HST, TC, flags = (itsGnIsMobile, 0000000), PL, MHL, reserved 0 -/
 def Spec.commonValues (nh ht hst : Nat) (tc : TrafficClass) (mobile pl mhl : Nat) : List Int :=
   [nh, 0, ht, hst, b2n tc.scf, b2n tc.channelOffload, tc.tcId, mobile, 0, pl, mhl, 0]
+
+/-- field values of a basic header with another RHL (forwarding) -/
+def basicValuesRaw (h : BasicHeader) (rhl : Nat) : List Int := [h.version, h.nh, h.reserved, h.lt.mult, h.lt.base, rhl]
+
+/-- the 32-bit two's complement pattern of a coordinate, as the standard defines it -/
+def twos32 (v : Int) : Nat := if v < 0 then (v + 4294967296).toNat else v.toNat
 
 end FlexModel.Wire
